@@ -29,6 +29,7 @@ func c18(c *Ctx) {
 	c18cs(c)
 	c18sig(c)
 	c18cryption(c)
+	c18keysPerGroup(c)
 	c18padding(c)
 	c18claims(c)
 }
@@ -725,7 +726,51 @@ func c18cryption(c *Ctx) {
 			return true, ""
 		})
 	}
-	c.R.Min(rule, 3, "LimitCryptionHandler closure, Write, flush")
+	// io.Writer contract: the buffering writer copies what the handler writes (handlers reuse their buffers)
+	if w := c.P.Func("rest/handler", "(*cryptionResponseWriter).Write"); w != nil {
+		bad := writeRetainsArg(c, w)
+		c.R.Check(len(bad) == 0, rule, "rest/handler.(*cryptionResponseWriter).Write#copy", "Write copies p into the private buffer and does not keep p itself (io.Writer: \"Write must not retain p\"): a handler that streams from a reused buffer would otherwise overwrite what was collected before it is encrypted", posOf(c, w), fmt.Sprint(bad), nil, 1)
+	}
+	c.R.Min(rule, 4, "LimitCryptionHandler closure, Write (2), flush")
+}
+
+// c18keysPerGroup (R8): the decrypters a route group verifies against are exactly that group's configured keys: the
+// map handed to the content-security middleware is built per signatureVerifier call from signature.PrivateKeys
+// (seed r3-C18-3: an engine-wide cache made a key configured for one group valid for all of them).
+func c18keysPerGroup(c *Ctx) {
+	rule := "C18.R8"
+	f := c.fn(rule, "rest", "(*engine).signatureVerifier")
+	if f == nil {
+		return
+	}
+	sites := 0
+	var bad []string
+	walkWithClosures(f, func(g *ssa.Function) {
+		for _, b := range g.Blocks {
+			for _, ins := range b.Instrs {
+				call, ok := ins.(ssa.CallInstruction)
+				if !ok {
+					continue
+				}
+				sc := call.Common().StaticCallee()
+				if sc == nil || sc.Name() != "LimitContentSecurityHandler" || len(call.Common().Args) < 2 {
+					continue
+				}
+				sites++
+				for _, d := range reachingDefs(call.Common().Args[1], g, 0) {
+					mm, ok := d.(*ssa.MakeMap)
+					if !ok || mm.Parent() != f {
+						bad = append(bad, c.P.Pos(call.Pos())+": decrypters come from "+describeDef(c, d)+", not from a map built by this call")
+					}
+				}
+			}
+		}
+	})
+	if sites == 0 {
+		c.R.Undecided(rule, "rest.(*engine).signatureVerifier", "the middleware construction is recognised", "no call of LimitContentSecurityHandler")
+		return
+	}
+	c.R.Check(len(bad) == 0, rule, "rest.(*engine).signatureVerifier#decrypters", "the key set given to the content-security middleware of a route group is a map made by this call (filled from this group's PrivateKeys), not state shared between groups", posOf(c, f), fmt.Sprint(bad), nil, sites)
 }
 
 // c18padding: the block padding written by the encryptor is accepted by the decryptor (writer/reader agreement).
